@@ -52,8 +52,14 @@ def query(ctx, g, gd, a, b, C, gkey=None):
     from y0.dsl import Variable
 
     kernel.LOG.reset_case({"graph": gd, "a": a, "b": b, "C": sorted(C)})
+    # the conditions in every form the signature (Iterable | None) admits
+    Cv = sorted((Variable(c) for c in C), key=str)
+    k = sum(map(ord, a + b + "".join(sorted(C)))) % 7
+    cond = (set(Cv) if k == 0 else frozenset(Cv) if k == 1 else list(Cv) if k == 2 else tuple(reversed(Cv)) if k == 3 else
+            (v for v in Cv) if k == 4 else iter(Cv) if k == 5 else (None if not Cv else set(Cv)))
+    kernel.count("C04:conditions-form:" + ("set", "frozenset", "list", "tuple", "generator", "iterator", "none-or-set")[k])
     try:
-        r = are_d_separated(g, Variable(a), Variable(b), conditions={Variable(c) for c in C})
+        r = are_d_separated(g, Variable(a), Variable(b), conditions=cond)
     except Exception as e:  # noqa: BLE001
         kernel.violation(PROP, "total", f"are_d_separated raised {type(e).__name__}: {e} on a valid query")
         r = None
